@@ -62,7 +62,7 @@ class JWSRegistry:
 
     def check_header(self, header: Header) -> None:
         """Check and validate the fields in header part of a JWS object."""
-        check_crit_header(header)
+        check_crit_header(header, self.header_registry)
         validate_registry_header(self.header_registry, header)
         if self.strict_check_header:
             check_supported_header(self.header_registry, header)
